@@ -41,6 +41,9 @@ def generate():
     need(t, r"if info_field\.timestamp\(\) > self\.now\.timestamp_secs\(\)", "future timestamp check", rel)
     need(t, r"if hop_field\.expiry_timestamp\(info_field\) < self\.now\.timestamp_secs\(\)", "expiry check", rel)
     need(t, r"if egress_interface != self\.current_interface_id", "egress interface check", rel)
+    need(t, r"if !self\.segment_changed\.get\(\)\s*&& self\.current_interface_id != 0\s*&& ingress_interface != self\.current_interface_id",
+         "ingress interface check (strict; exempt after a validated segment change)", rel)
+    need(t, r"true => \{\s*self\.segment_changed\.set\(true\);\s*Ok\(\(\)\)\s*\}", "segment change recorded in the validator", rel)
     arms_s = "; ".join(f"({RLT[a]}, {RLT[b]}, {v})" for a, b, v in arms if a in RLT and b in RLT)
 
     # ---- SCMP code of every routing error (to_scmp_error)
